@@ -11,6 +11,8 @@ pub mod c08;
 pub mod c09;
 pub mod c11;
 pub mod c12;
+pub mod c13;
+pub mod c14;
 pub mod c16;
 pub mod c17;
 pub mod c18;
@@ -29,6 +31,8 @@ pub fn dispatch(id: &str, tier: Tier, seed: u64, extra: &[String]) -> i32 {
         "C09" => c09::run(&Ctx::new("C09", tier, seed)),
         "C11" => c11::run(&Ctx::new("C11", tier, seed)),
         "C12" => c12::run(&Ctx::new("C12", tier, seed)),
+        "C13" => c13::run(&Ctx::new("C13", tier, seed)),
+        "C14" => c14::run(&Ctx::new("C14", tier, seed)),
         "C16" => c16::run(&Ctx::new("C16", tier, seed)),
         "C17" => c17::run(&Ctx::new("C17", tier, seed)),
         "C18" => c18::run(&Ctx::new("C18", tier, seed)),
